@@ -35,7 +35,7 @@ Print Assumptions C14_constants_agree.
 
 From Coq Require Import NArith.
 From VLib Require Import Bytes.
-From Xfrm Require Import Params Gen.XfrmBuild XfrmModel KernelSpec XfrmProofs.
+From Xfrm Require Import Params Gen.XfrmBuild XfrmModel KernelSpec Intent XfrmProofs.
 
 (** FLUSHSA / FLUSHPOLICY: for every seq/pid the emitted bytes are one 17-byte message whose kernel-side reading
     (struct nlmsghdr + struct xfrm_usersa_flush at the C offsets) is: total length, the right type,
